@@ -7,7 +7,8 @@ registry of event `e` is the sub-sequence of records with `ev = e` that are stil
 creation order — this is the ordered map keyed by the event's atomic hook counter.  `Trigger` first
 bumps the event's trigger counter (one atomic `Add(1)`) and gives up when it exceeds the limit; then
 it walks the registry: per hook it bumps the hook's counter, unhooks a hook whose limit is exceeded,
-and otherwise calls it (synchronously, or by submitting to a worker pool for `pooled` hooks).  The
+and otherwise calls it (synchronously, or by submitting to a worker pool for `pooled` hooks); the
+event's and the hook's `WithPreTriggerFunc` functions are called synchronously right before that.  The
 link hook that `LinkTo` installs on the target calls the source event's `Trigger` with the same
 argument.  `linkTo` unhooks the previous link hook before hooking the new target.
 
@@ -26,6 +27,7 @@ structure Hook where
   count : Nat              -- triggerCount
   fired : Nat              -- ghost: number of invocations
   pooled : Bool
+  pre : Bool               -- WithPreTriggerFunc on the hook
   attached : Bool
 deriving Repr, DecidableEq
 
@@ -34,6 +36,7 @@ structure Ev where
   count : Nat
   passed : Nat             -- ghost: triggers that passed the limit check
   link : Option Nat        -- key of `e.link`
+  pre : Bool               -- WithPreTriggerFunc on the event
 deriving Repr, DecidableEq
 
 structure St where
@@ -44,15 +47,22 @@ deriving Repr
 
 def init : St := { evs := [], hooks := [], user := [] }
 
+/-- What a log entry records: the invocation of a hook, or a call of the event's / the hook's
+pre-trigger function (always synchronous, right before the hook is invoked or submitted). -/
+inductive Kind
+  | call | preEv | preHook
+deriving Repr, DecidableEq
+
 structure Call where
-  handle : Nat
+  kind : Kind
+  handle : Nat             -- hook handle; for `preEv` the event
   arg : Nat
   pooled : Bool
 deriving Repr, DecidableEq
 
 inductive Op
-  | new (max : Nat)
-  | hook (e max : Nat) (pooled : Bool)
+  | new (max : Nat) (pre : Bool)
+  | hook (e max : Nat) (pooled pre : Bool)
   | unhook (h : Nat)
   | trigger (e a : Nat)
   | link (src tgt : Nat)
@@ -82,6 +92,15 @@ def detach (s : St) (k : Nat) : St :=
   | some h => setHook s k { h with attached := false }
   | none => s
 
+/-- The pre-trigger calls made right before hook `h` of event `e` is invoked with `a`. -/
+def preCalls (evPre : Bool) (e a : Nat) (h : Hook) : List Call :=
+  (if evPre then [⟨.preEv, e, a, false⟩] else []) ++ (if h.pre then [⟨.preHook, h.handle, a, false⟩] else [])
+
+def evPreOf (s : St) (e : Nat) : Bool :=
+  match s.evs[e]? with
+  | some ev => ev.pre
+  | none => false
+
 /-- The body of the `ForEach` consumer for the hook with key `k`. -/
 def visitKey (trigRec : St → Nat → Nat → St × List Call) (e a : Nat) (acc : St × List Call) (k : Nat) :
     St × List Call :=
@@ -93,9 +112,10 @@ def visitKey (trigRec : St → Nat → Nat → St × List Call) (e a : Nat) (acc
       (setHook acc.1 k { h with count := h.count + 1, attached := false }, acc.2)
     else
       let s1 := setHook acc.1 k { h with count := h.count + 1, fired := h.fired + 1 }
+      let pres := preCalls (evPreOf acc.1 e) e a h
       match h.link with
-      | some src => let r := trigRec s1 src a; (r.1, acc.2 ++ r.2)
-      | none => (s1, acc.2 ++ [⟨h.handle, a, h.pooled⟩])
+      | some src => let r := trigRec s1 src a; (r.1, acc.2 ++ pres ++ r.2)
+      | none => (s1, acc.2 ++ pres ++ [⟨.call, h.handle, a, h.pooled⟩])
 
 def trig : Nat → St → Nat → Nat → St × List Call
   | 0, s, _, _ => (s, [])
@@ -109,11 +129,12 @@ def trig : Nat → St → Nat → Nat → St × List Call
           (setEv s e { ev with count := ev.count + 1, passed := ev.passed + 1 }, [])
 
 def step (s : St) : Op → St × Out
-  | .new max => ({ s with evs := s.evs ++ [{ max := max, count := 0, passed := 0, link := none }] }, .ev s.evs.length)
-  | .hook e max pooled =>
+  | .new max pre =>
+    ({ s with evs := s.evs ++ [{ max := max, count := 0, passed := 0, link := none, pre := pre }] }, .ev s.evs.length)
+  | .hook e max pooled pre =>
     if e < s.evs.length then
       ({ s with hooks := s.hooks ++ [{ ev := e, handle := s.user.length, link := none, max := max, count := 0,
-                                        fired := 0, pooled := pooled, attached := true }],
+                                        fired := 0, pooled := pooled, pre := pre, attached := true }],
                 user := s.user ++ [s.hooks.length] }, .hk s.user.length)
     else (s, .bad)
   | .unhook h =>
@@ -134,7 +155,7 @@ def step (s : St) : Op → St × Out
           | some k => detach s k
           | none => s
         ({ s1 with hooks := s1.hooks ++ [{ ev := tgt, handle := 0, link := some src, max := 0, count := 0, fired := 0,
-                                           pooled := false, attached := true }],
+                                           pooled := false, pre := false, attached := true }],
                    evs := s1.evs.set src { ev with link := some s1.hooks.length } }, .done)
       else (s, .bad)
   | .unlink src =>
@@ -163,9 +184,12 @@ def registry (s : St) (e : Nat) : List Hook := s.hooks.filter (fun h => h.ev == 
 open Hive.Proto
 
 def parseOp : List String → Option Op
-  | ["new", m] => m.toNat?.map .new
-  | ["hook", e, m, "sync"] => do pure (.hook (← e.toNat?) (← m.toNat?) false)
-  | ["hook", e, m, "pool"] => do pure (.hook (← e.toNat?) (← m.toNat?) true)
+  | ["new", m] => m.toNat?.map (.new · false)
+  | ["new", m, "pre"] => m.toNat?.map (.new · true)
+  | ["hook", e, m, "sync"] => do pure (.hook (← e.toNat?) (← m.toNat?) false false)
+  | ["hook", e, m, "pool"] => do pure (.hook (← e.toNat?) (← m.toNat?) true false)
+  | ["hook", e, m, "sync", "pre"] => do pure (.hook (← e.toNat?) (← m.toNat?) false true)
+  | ["hook", e, m, "pool", "pre"] => do pure (.hook (← e.toNat?) (← m.toNat?) true true)
   | ["unhook", h] => h.toNat?.map .unhook
   | ["trigger", e, a] => do pure (.trigger (← e.toNat?) (← a.toNat?))
   | ["link", s, t] => do pure (.link (← s.toNat?) (← t.toNat?))
@@ -174,7 +198,11 @@ def parseOp : List String → Option Op
   | ["hcount", h] => h.toNat?.map .hcount
   | _ => none
 
-def showCall (c : Call) : String := s!"{c.handle}:{c.arg}"
+def showCall (c : Call) : String :=
+  match c.kind with
+  | .call => s!"{c.handle}:{c.arg}"
+  | .preEv => s!"E{c.handle}:{c.arg}"
+  | .preHook => s!"P{c.handle}:{c.arg}"
 
 def showCalls (cs : List Call) : String := "[" ++ " ".intercalate (cs.map showCall) ++ "]"
 
